@@ -8,6 +8,8 @@ mod p_c05;
 mod p_c07;
 mod p_c08;
 mod p_c09;
+mod p_c11;
+mod p_c12;
 mod p_c19;
 mod delivery;
 mod spec;
@@ -84,6 +86,8 @@ fn main() {
                 "C08" => p_c08::generate(seed, tier, &mut sink),
                 "C09" => p_c09::generate_c09(seed, tier, &mut sink),
                 "C10" => p_c09::generate_c10(seed, tier, &mut sink),
+                "C12" => p_c12::generate(seed, tier, &mut sink),
+                "C11" => p_c11::generate(seed, tier, &mut sink),
                 "C19" => p_c19::generate(seed, tier, &mut sink),
                 _ => {
                     eprintln!("unknown property {}", prop);
